@@ -223,7 +223,9 @@ class ExprTheory:
         return out
 
     # ---- set <-> array
-    def set_to_array(self, vset):
+    def set_to_array(self, vset, binders=()):
+        """`binders`: iteration constants the set may depend on; the array is then a function of them (an array constant would
+        silently pin the set to one iteration)."""
         if getattr(vset, "array", None) is not None:
             return vset.array
         x = z3.Const("sx", self.L.Node)
@@ -234,8 +236,24 @@ class ExprTheory:
             return arr
         # a fresh array constant defined pointwise (no lambda: the SMT-LIB text must stay first-order for cvc5)
         nm = self.L.fresh_name("rangeset")
+        from .logic import symbols_of
+        used = symbols_of(vset.has(x))
+        bs = [b for b in binders if b.decl().name() in used]
+        if not bs:
+            cached = getattr(vset, "_array_const", None)
+            if cached is not None:
+                return cached
+        if bs:
+            F = z3.Function(nm, *[b.sort() for b in bs], self.NodeSet)
+            arr = F(*bs)
+            self.L.add_axioms({nm}, [self.L.forall_c(bs + [x], z3.Select(arr, x) == vset.has(x))])
+            return arr
         arr = z3.Const(nm, self.NodeSet)
         self.L.add_axioms({nm}, [self.L.forall_c([x], z3.Select(arr, x) == vset.has(x))])
+        try:
+            vset._array_const = arr
+        except Exception:
+            pass
         return arr
 
     # ---- constructors
@@ -376,7 +394,7 @@ def expr_construct(ex, cls, args, kwargs):
     elif name == "Sum":
         from .values import VSet
         rs = ex.as_set(vals["ranges"])
-        ex.assume(z3.And(T.body(r) == vals["expression"].t, T.ranges(r) == T.set_to_array(rs)))
+        ex.assume(z3.And(T.body(r) == vals["expression"].t, T.ranges(r) == T.set_to_array(rs, binders=ex.binders)))
     else:
         raise OutOfSubset(f"constructor of {name}")
     post = ex.repo.find_method(cls, "__post_init__")
